@@ -73,6 +73,7 @@ class C01a(Obligation):
 
 import jedi  # noqa: E402
 from jedi.api import completion as jcompletion  # noqa: E402
+from jedi.inference import imports as jimports  # noqa: E402
 
 BROKEN = [
     'foo(1, "abc', 
@@ -85,9 +86,14 @@ BROKEN = [
     'r\'\'\'text\n more (text\n',
     'f(a)(b=1, *c, **\n',
     'x.y(1)[2].z(k=\n\t3, \n',
+    # nested comprehensions (anonymous scopes inside anonymous scopes), complete and cut off
+    'def table(rows):\n    return [[c for c in row] for row in rows]\npairs = {a: [b for b in a] for a in q\n',
+    # statements separated by ";" inside error nodes, imports inside error nodes
+    'other = value; )\ndef func(arg):\n    arg; )\n    return arg\n',
+    'import a.b; from c import (d; x = 1; ]\nfrom . import y; import (\n',
 ]
 
-FUNCTIONS = ('completion_name', 'signature_details', 'string_prefix', 'context')
+FUNCTIONS = ('completion_name', 'signature_details', 'string_prefix', 'context', 'error_imports')
 
 
 class C01b(Obligation):
@@ -106,8 +112,8 @@ class C01b(Obligation):
     )
 
     def configs(self, tier):
-        n = 5 if tier == 'quick' else len(BROKEN)
-        return [dict(snippet=i, fn=f) for i in range(n) for f in FUNCTIONS]
+        which = (0, 5, 10, 11, 12) if tier == 'quick' else range(len(BROKEN))
+        return [dict(snippet=i, fn=f) for i in which for f in FUNCTIONS]
 
     def scenario(self, ctx, cfg):
         src = BROKEN[cfg['snippet']]
@@ -140,6 +146,17 @@ class C01b(Obligation):
             leaf = ctx.run(module.get_leaf_for_position, pos, include_prefixes=True)
             out = ctx.call(jcompletion._extract_string_while_in_string, leaf, pos)
             ctx.check(out.exc is None, '_extract_string_while_in_string never raises')
+        elif fn == 'error_imports':
+            leaf = ctx.run(module.get_leaf_for_position, pos)
+            if leaf is None or leaf.type != 'name':
+                return
+            followed = []
+            ctx.patch(jimports, 'Importer', lambda state, names, module_context, level=0:
+                      Obj(follow=lambda: followed.append((tuple(n.value for n in names), level)) or []))
+            context = Obj(inference_state=None, get_root_context=lambda: None)
+            ctx.force(jimports.follow_error_node_imports_if_possible)
+            out = ctx.call(jimports.follow_error_node_imports_if_possible, context, leaf)
+            ctx.check(out.exc is None, 'imports inside error nodes: looking at any name of a broken statement never raises')
         else:
             ctx.force(jedi.Script.get_context, jedi.Script.get_context.__wrapped__)
             out = ctx.call(script.get_context, line, column)
